@@ -30,6 +30,19 @@ open PromVerif.Lemmas.Wrappers PromVerif.Lemmas.WrappersSig
 extractor understands -/
 theorem extract_ok : extractOk = true := by decide
 
+/-- what else the theorems read from the source: `Gauge.time()` hands `Timer` the callback `set`, `Summary.time()`
+and `Histogram.time()` hand it `observe` (hence the two `TimeKind`s and which metric each applies to);
+`ExceptionCounter.__call__` and `InprogressTracker.__call__` enter `self` (decorator use = context-manager use);
+`count_exceptions()` / `track_inprogress()` refuse a labelled parent when the wrapper is created, `time()` does not
+(`Timer.labels()` exists for late labelling — a timed call on a still unlabelled parent fails inside `__exit__`; metric
+ids in the model stand for observable metrics); the generated `def` never contains `/` -/
+theorem source_facts :
+    kindOfCallback gaugeTimeCallback = some .set ∧ kindOfCallback summaryTimeCallback = some .observe ∧
+    kindOfCallback histogramTimeCallback = some .observe ∧
+    excCallWithSelf = true ∧ inprogressCallWithSelf = true ∧
+    countExcChecksObservable = true ∧ trackInprogressChecksObservable = true ∧ timeChecksObservable = false ∧
+    posonlyMarkerEmitted = false := by decide
+
 /-! ### transparency -/
 
 mutual
@@ -92,7 +105,7 @@ theorem duration_is_clamped (now start : Int) : duration now start = max (now - 
 
 /-- a decorated call uses a Timer of its own -/
 theorem decorator_timer_is_fresh (tid : Nat) : (TimerMode.decorator tid).fresh = true := by
-  show timerCallFresh = true
+  show (timerCallFresh && newTimerIsNew) = true
   decide
 
 /-- **Exact duration**: a timed call — decorator or `with metric.time():` — reads the clock once on entry, once
@@ -158,6 +171,16 @@ theorem hierarchy_facts :
   · intro c; cases c <;> decide
   · intro c; cases c <;> decide
   · intro c d e; cases c <;> cases d <;> cases e <;> decide
+
+/-- `count_exceptions()` without argument counts instances of `Exception`: any `Exception` subclass, but not
+`KeyboardInterrupt`, `SystemExit`, `GeneratorExit` or a bare `BaseException` -/
+theorem count_exceptions_default :
+    defaultClasses = [.exception] ∧
+    (∀ i c, escapes defaultClasses (.raise ⟨i, c⟩) = true ↔
+      c ≠ .baseException ∧ c ≠ .keyboardInterrupt ∧ c ≠ .systemExit ∧ c ≠ .generatorExit) := by
+  refine ⟨by decide, ?_⟩
+  intro i c
+  cases c <;> decide
 
 example : (exec (.mk [.countExc 0 [.exception]] (.nest
       (.cons (.mk [.countExc 0 [.exception]] (.out (.raise ⟨1, .keyError⟩)))
@@ -381,6 +404,12 @@ theorem metadata_preserved_partial (s w : ArgSpec) (wid : Nat) (h : decorate s w
     intro hn
     simp [makerName, hn]
 
+/-
+Full statement (FALSE): the wrapper's own signature (`inspect.signature(w, follow_wrapped=False)`) is the
+original's.  Missing: `hp : s.posonly = []` — the generated `def` has no `/` (`posonly_marker_lost_counterexample`;
+finding F13, signature `C16:posonly-marker-lost`) — and `hn : s.name ≠ '<lambda>'`.  (`inspect.signature(w)` itself
+follows `__wrapped__` and is the original's by `metadata_preserved_partial`.)
+-/
 /-- with no positional-only parameter and a proper name the wrapper is, as far as modelled, the original
 function with `__wrapped__` added -/
 theorem signature_same_partial (s w : ArgSpec) (wid : Nat) (h : decorate s wid = .ok w)
@@ -392,6 +421,30 @@ theorem signature_same_partial (s w : ArgSpec) (wid : Nat) (h : decorate s wid =
     rw [wrapperSpec_eq]
     cases s
     simp_all [makerName]
+
+/-- `def h(a, /)`: the wrapper's own signature is `(a)` — the `/` is lost (same root cause as F13), so
+`signature_same_partial` cannot drop `hp` -/
+theorem posonly_marker_lost_counterexample :
+    specH.posonly = [nm "a"] ∧ decorate specH 9 = .ok (wrapperSpec specH 9) ∧
+    (wrapperSpec specH 9).posonly = [] ∧ (wrapperSpec specH 9).pos = [nm "a"] ∧
+    { wrapperSpec specH 9 with wrapped := specH.wrapped, fid := specH.fid } ≠ specH := by decide
+
+/-- **Domain**: only functions can be wrapped.  For every other kind of callable `decorate` raises before a
+wrapper exists — `AttributeError` when the object has no `__name__` (callable instance, `functools.partial`),
+`TypeError('You are decorating a non function')` otherwise (builtin, bound method, class, staticmethod object) — so
+"any synchronous callable" in the property is, for this code, "any synchronous Python function". -/
+theorem decorate_domain (k : CallableKind) (s w : ArgSpec) (wid : Nat) :
+    decorateCallable k s wid = .ok w ↔ k = .function ∧ decorate s wid = .ok w := by
+  cases k <;> simp [decorateCallable, CallableKind.hasName, makerReadsDunderName, makerRefusesNonFunctions]
+
+theorem non_function_refused_counterexample :
+    decorateCallable .callableInstance specQ = .error .attributeError ∧
+    decorateCallable .partialObject specQ = .error .attributeError ∧
+    decorateCallable .builtin specQ = .error .typeError ∧
+    decorateCallable .boundMethod specQ = .error .typeError ∧
+    decorateCallable .cls specQ = .error .typeError ∧
+    decorateCallable .staticmethodObject specQ = .error .typeError ∧
+    decorateCallable .function specQ = .ok (wrapperSpec specQ) := by decide
 
 theorem lambda_renamed_counterexample :
     (wrapperSpec { specF13 with name := nm "<lambda>" }).name = nm "_lambda_" := by decide
